@@ -301,6 +301,58 @@ wait:
 			}
 		}
 	}
+	// messages without profile whose fields add up to more than any scratch
+	// buffer (up to 255 fields of up to 255 bytes), also with developer fields
+	for i := 0; i < c.pick(24, 200); i++ {
+		arch := byte(i % 2)
+		s := newStream(12, false)
+		s.FileId(0, arch, 4)
+		nf := []int{4, 6, 3, 40, 255, 12}[i%6]
+		var fs []FieldDef
+		total := 0
+		for f := 0; f < nf; f++ {
+			sz := 200 + rng.Intn(56)
+			if nf > 12 {
+				sz = 1 + rng.Intn(255)
+			}
+			fs = append(fs, FieldDef{byte(f), byte(sz), 0x0D})
+			total += sz
+		}
+		var dv []DevDef
+		if i%4 == 3 {
+			dv = []DevDef{{0, 250, 0}, {1, 250, 0}}
+			total += 500
+		}
+		m := uint16(0xFF00 + rng.Intn(200))
+		if i%5 == 4 {
+			m = 20 // the same shape on a known message: all field numbers unknown to the profile
+			for f := range fs {
+				fs[f].Num = byte(150 + f%100)
+			}
+		}
+		s.Def(1, arch, m, fs, dv)
+		for r := 0; r < 2; r++ {
+			pl := make([]byte, total)
+			rng.Read(pl)
+			s.Data(1, pl)
+		}
+		s.Def(2, arch, 20, []FieldDef{{3, 1, 2}}, nil)
+		s.Data(2, []byte{77})
+		for o := 0; o < 4; o++ {
+			id++
+			cl := p.runCall(id, []string{"decode", "chained"}[o%2], s.Bytes(), readScript{chunks: chunkScripts[(i+o)%len(chunkScripts)], cut: -1, fault: -1}, CallOpts{UF: o & 1, UM: o >> 1}, true)
+			cl.Note = fmt.Sprintf("message %d with %d fields, %d bytes of field data", m, nf, total)
+			if cl.Ret.Panic == 1 {
+				c.report("panic:"+firstWords(cl.Ret.PanicMsg), fmt.Sprintf("%s panics (%s): %s", cl.API, cl.Note, cl.Ret.PanicMsg), cl)
+			}
+			if cl.Ret.Hang == 1 {
+				c.report("hang:"+cl.API, cl.API+" does not return", cl)
+			}
+			if o == 3 && len(s.Bytes()) < 3000 {
+				calls = append(calls, cl)
+			}
+		}
+	}
 	// a definition the profile forbids, sent right after the same field triples
 	// were accepted for a message without profile on the same local type (and
 	// the other way round): each definition is judged on its own
